@@ -696,6 +696,9 @@ def stop_to_fail(e, phase, wire=None):
     if e.kind == 'oob' and wire is not None and e.obj is wire:
         return Fail('reads-only-own-bytes', 'the reader reads beyond the bytes the writer produced: %s (in %s)' % (e.text, ch),
                     where, ch)
+    if e.kind == 'budget':
+        # shapes are concrete and tiny: a run that is still going after millions of interpreted instructions does not end
+        return Fail('completes', 'the %s does not terminate on this shape: %s (in %s)' % (phase, e.text, ch), where, ch)
     if e.kind in ('oob', 'dead', 'null', 'throw'):
         return Fail('completes', 'the %s does not run to completion: %s (in %s)' % (phase, e.text, ch), where, ch)
     return None
@@ -1155,6 +1158,8 @@ def evaluate(rep, rule, fn, clauses, plans, where0, suffix, fact=None, prefix=''
             broken = AnalysisBroken('%s: %s at %s (%s)' % (fn, e.text, e.where, chain_text(e.chain or [])))
         except AnalysisBroken as e:
             broken = AnalysisBroken('%s: %s' % (fn, e))
+        except (KeyError, IndexError, TypeError, ValueError, AttributeError, RecursionError) as e:
+            broken = AnalysisBroken('%s: the interpreter cannot follow this code (%s: %s)' % (fn, type(e).__name__, e))
     if broken is not None and not failed:
         rep.defer_broken(broken)
         return False
@@ -1481,6 +1486,8 @@ def block_rules(rep, ctx, arch, stats):
                 broken = AnalysisBroken('%s: %s at %s (%s)' % (label, e.text, e.where, chain_text(e.chain or [])))
             except AnalysisBroken as e:
                 broken = AnalysisBroken('%s: %s' % (label, e))
+            except (KeyError, IndexError, TypeError, ValueError, AttributeError, RecursionError) as e:
+                broken = AnalysisBroken('%s: the interpreter cannot follow this code (%s: %s)' % (label, type(e).__name__, e))
         if broken is not None and not failed:
             rep.defer_broken(broken)
             continue
